@@ -203,34 +203,39 @@ void add_aliasing(Explorer<Q>& ex, bool has_plus, bool has_times) {
     };
     ex.ops.push_back(b);
   }
-  if constexpr (rel::IsQuantity<Q>::value) {
-    if (has_times) {
-      for (int which = 0; which < 2; which++) {
-        Op<Q> m;
-        m.name = which ? "/=own-first-component(by reference)" : "*=own-first-component(by reference)";
-        m.compound = [which](Q& q) {
-          // a reference into the object's own storage
-          const T* first;
-          if constexpr (vf::count_of<Q>() == 1) {
-            first = &q.MutableValue();
-          } else if constexpr (vf::count_of<Q>() == 2) {
-            first = &q.MutableValue().Mutable_x_y()[0];
-          } else if constexpr (vf::count_of<Q>() == 3) {
-            first = &q.MutableValue().Mutable_x_y_z()[0];
-          } else if constexpr (vf::count_of<Q>() == 6) {
-            first = &q.MutableValue().Mutable_xx_xy_xz_yy_yz_zz()[0];
-          } else {
-            first = &q.MutableValue().Mutable_xx_xy_xz_yx_yy_yz_zx_zy_zz()[0];
-          }
-          if (which) q /= *first; else q *= *first;
-        };
-        m.pure = [](const Q&, Q&) { return false; };
-        m.model = [which](T* c, int n) {
-          const T k = c[0];
-          for (int i = 0; i < n; i++) c[i] = which ? c[i] / k : c[i] * k;
-        };
-        ex.ops.push_back(m);
-      }
+  if (has_times) {
+    for (int which = 0; which < 2; which++) {
+      Op<Q> m;
+      m.name = which ? "/=own-first-component(by reference)" : "*=own-first-component(by reference)";
+      m.compound = [which](Q& q) {
+        // a reference into the object's own storage (for quantities through MutableValue())
+        const T* first = nullptr;
+        auto& raw = [&]() -> auto& {
+          if constexpr (rel::IsQuantity<Q>::value)
+            return q.MutableValue();
+          else
+            return q;
+        }();
+        using R = std::decay_t<decltype(raw)>;
+        if constexpr (std::is_floating_point_v<R>) {
+          first = &raw;
+        } else if constexpr (vf::Shape<R>::n == 2) {
+          first = &raw.Mutable_x_y()[0];
+        } else if constexpr (vf::Shape<R>::n == 3) {
+          first = &raw.Mutable_x_y_z()[0];
+        } else if constexpr (vf::Shape<R>::n == 6) {
+          first = &raw.Mutable_xx_xy_xz_yy_yz_zz()[0];
+        } else {
+          first = &raw.Mutable_xx_xy_xz_yx_yy_yz_zx_zy_zz()[0];
+        }
+        if (which) q /= *first; else q *= *first;
+      };
+      m.pure = [](const Q&, Q&) { return false; };
+      m.model = [which](T* c, int n) {
+        const T k = c[0];
+        for (int i = 0; i < n; i++) c[i] = which ? c[i] / k : c[i] * k;
+      };
+      ex.ops.push_back(m);
     }
   }
 }
@@ -245,7 +250,7 @@ void add_aliasing(Explorer<Q>& ex, bool has_plus, bool has_times) {
   void math_##FN(const char* qname) {                                                                        \
     using T = numof<Q>;                                                                                      \
     if constexpr (Has_##FN<Q>::value) {                                                                      \
-      for (long double v : {0.0L, 0.5L, 1.0L, 2.25L, 9.0L, 1e-3L, 123.456L, -0.5L, -8.0L}) {               \
+      for (long double v : {0.0L, -0.0L, 0.5L, 1.0L, 2.25L, 9.0L, 1e-3L, 123.456L, -0.5L, -8.0L, (long double)INFINITY, -(long double)INFINITY, 1e-4940L, -1e-4940L}) { \
         const T x = (T)v;                                                                                    \
         const Q q = rel::rebuild<Q>(&x);                                                                     \
         const T got = std::FN(q), want = std::FN(q.Value());                                                 \
